@@ -410,7 +410,35 @@ func (store *KeyStore) WriteKeyFile(filename string, data []byte, mode os.FileMo
 	if err != nil {
 		return err
 	}
+	// the previous version now lives in the history directory: a cached list of
+	// historical file names for this key no longer tells the whole story
+	store.refreshCachedHistoricalFilenames(filename)
 	return nil
+}
+
+// refreshCachedHistoricalFilenames re-reads the list of current+rotated files of a key if such a list is cached.
+// If the list cannot be rebuilt, the whole cache is dropped rather than left stale.
+func (store *KeyStore) refreshCachedHistoricalFilenames(filename string) {
+	fullPath := filepath.Clean(filename)
+	if _, err := store.getCachedHistoricalPrivateKeyFilenames(fullPath); err == errCacheMissHistoricalFilenames {
+		return
+	}
+	paths, err := getHistoricalFilePaths(fullPath, store.fs)
+	if err == nil {
+		for i, path := range paths {
+			var p string
+			if p, err = filepath.Rel(store.privateKeyDirectory, path); err != nil {
+				break
+			}
+			paths[i] = p
+		}
+	}
+	if err == nil {
+		err = store.cacheHistoricalPrivateKeyFilenames(fullPath, paths)
+	}
+	if err != nil {
+		store.cache.Clear()
+	}
 }
 
 func (store *KeyStore) backupHistoricalKeyFile(filename string) error {
